@@ -1453,6 +1453,9 @@ class TaintInterp:
             # counts do not depend on the order; the key order (first occurrence) does
             return mp(sc(vt(el)), ot, ("counter", id(e)), key=el)
         if q == "networkx.Graph":
+            if a and a[0].kind == "graph":
+                # nx.Graph(m): nodes, edges and their data are copied like m.copy() does
+                return V("graph", a[0].t, oid=a[0].oid, x=dict(a[0].x))
             return self.graph()
         if q in ("itertools.chain", "itertools.chain.from_iterable"):
             # concatenation: the parts follow one another in argument order; inside a part its own order holds
